@@ -294,8 +294,10 @@ def ExecMeets (cbs : List Exec.Cb) (chain : ℕ → Option ℕ) (sigma : List Bo
   ∀ o ∈ Exec.run cbs chain sigma rels, o.1 = i → o.2.2 ≤ o.2.1 + R
 
 /-- the claim for the timer analysis phrased over the executor transition system itself
-(stated; `timer_safe` proves it over the schedule-level Spec; that runs of the transition
-system satisfy that Spec is checked by execution, not proved): for every run of the executor on a compliant supply with releases
+in terms of the completions reported by `Exec.run` (an earlier phrasing, kept for reference:
+`timer_safe_lts` above proves the claim for every run, phrased over the job system `Exec.toSys`
+of the run — service received by release + `R` — via the refinement
+`executor_runs_are_timer_legal`): for every run of the executor on a compliant supply with releases
 bounded by the arrival curves, `Ok(R)` of `rta_timer` bounds the response times of the
 analysed timer -/
 def TimerSafe : Prop :=
